@@ -49,6 +49,9 @@ type Obj struct {
 	// non-apply write (managedFields entries with operation Update), sorted. The slice is never
 	// modified in place.
 	Legacy []string
+	// Prev is the content the object had before its latest write (nil for a freshly created one):
+	// what an informer cache that is one event behind still serves.
+	Prev map[string]any
 }
 
 // LegacyManagers are the field managers whose client-side (non-apply) writes the model records
@@ -86,7 +89,7 @@ func (o *Obj) withLegacy(m string) []string {
 }
 
 func (o *Obj) clone() *Obj {
-	n := &Obj{Content: runtime.DeepCopyJSON(o.Content), Inc: o.Inc, Legacy: o.Legacy}
+	n := &Obj{Content: runtime.DeepCopyJSON(o.Content), Inc: o.Inc, Legacy: o.Legacy, Prev: o.Prev}
 	if o.Applied != nil {
 		n.Applied = make(map[string]bool, len(o.Applied))
 		for k := range o.Applied {
@@ -209,6 +212,7 @@ func (s *Store) Touch(k Key) bool {
 	}
 	c := runtime.DeepCopyJSON(o.Content)
 	c["metadata"].(map[string]any)["resourceVersion"] = s.nextRV()
+	o.Prev = o.Content
 	o.Content = c
 	return true
 }
